@@ -3676,6 +3676,13 @@ int64_t ExpressionEvaluator::evaluate_function_call_impl(const ASTNode *node) {
                 interpreter_.get_ffi_manager()->callForeignFunction(node->name,
                                                                     args);
 
+            if (result.type == TYPE_UNKNOWN) {
+                std::cerr << "Error: FFI call failed: "
+                          << interpreter_.get_ffi_manager()->getLastError()
+                          << std::endl;
+                std::exit(1);
+            }
+
             // 結果を設定
             if (result.type == TYPE_DOUBLE || result.type == TYPE_FLOAT) {
                 TypedValue typed_result(result.double_value,
